@@ -1028,6 +1028,154 @@ example : Lss.ctor "MultiLanguageNameType" [([69, 78], [97])] = .error .valueErr
 example : (Lss.step ⟨"ShortNameTypeIEC61360", [([101, 110], [97])]⟩ (.setItem [100, 101] (List.replicate 19 97))).2 = .error .valueError := by
   decide
 
+/-! ## 3g'. the caller's dict and two language string sets built from it (aliasing of the constructor argument) -/
+
+/-- every stored entry passed the tag check and the text check of the object's OWN class -/
+def LssEntries (s : Lss) : Prop := ∀ e ∈ s.d, tagCheck e.1 = .ok () ∧ textCheck s.cls e.2 = .ok ()
+
+private theorem lss_setItem_entries (s : Lss) (k v : Str) (h : LssEntries s) :
+    (s.setItem k v).1.cls = s.cls ∧ LssEntries (s.setItem k v).1 := by
+  unfold Lss.setItem
+  cases hc : andThen (textCheck s.cls v) (tagCheck k) with
+  | error e => exact ⟨rfl, h⟩
+  | ok u =>
+    cases u
+    rw [andThen_ok] at hc
+    refine ⟨rfl, ?_⟩
+    intro e he
+    rcases mem_dictSet k v s.d e he with rfl | h'
+    · exact ⟨hc.2, hc.1⟩
+    · exact h e h'
+
+private theorem lss_delItem_entries (s : Lss) (k : Str) (h : LssEntries s) :
+    (s.delItem k).1.cls = s.cls ∧ LssEntries (s.delItem k).1 := by
+  unfold Lss.delItem
+  split
+  · exact ⟨rfl, h⟩
+  · split
+    · exact ⟨rfl, h⟩
+    · refine ⟨rfl, ?_⟩
+      intro e he
+      exact h e (List.mem_filter.1 he).1
+
+private theorem lss_update_entries : ∀ (kvs : List (Str × Str)) (s : Lss), LssEntries s →
+    (s.update kvs).1.cls = s.cls ∧ LssEntries (s.update kvs).1
+  | [], s, h => ⟨rfl, h⟩
+  | (k, v) :: r, s, h => by
+    simp only [Lss.update]
+    have hs := lss_setItem_entries s k v h
+    cases hr : s.setItem k v with
+    | mk s' res =>
+      rw [hr] at hs
+      cases res with
+      | ok u =>
+        have := lss_update_entries r s' hs.2
+        exact ⟨this.1.trans hs.1, this.2⟩
+      | error e => exact hs
+
+/-- every operation of a language string set — accepted or raised, `update` included — keeps its class and keeps every
+    stored entry within the limits of that class -/
+theorem c02_lss_step_entries (s : Lss) (op : LssOp) (h : LssEntries s) : (s.step op).1.cls = s.cls ∧ LssEntries (s.step op).1 := by
+  cases op with
+  | setItem k v => exact lss_setItem_entries s k v h
+  | delItem k => exact lss_delItem_entries s k h
+  | clear => exact ⟨rfl, h⟩
+  | update kvs => exact lss_update_entries kvs s h
+  | setDefault k v => simp only [Lss.step]; split; exact ⟨rfl, h⟩; exact lss_setItem_entries s k v h
+  | pop k => simp only [Lss.step]; split; exact ⟨rfl, h⟩; exact lss_delItem_entries s k h
+  | popItem =>
+    simp only [Lss.step]
+    split
+    · exact ⟨rfl, h⟩
+    · exact lss_delItem_entries s _ h
+
+/-- both objects of the world conform to their own class -/
+def LssWOk (w : LssW) : Prop := LssEntries w.a ∧ ∀ b, w.b = some b → LssEntries b
+
+theorem c02_lssw_ctor (cls : String) (d : List (Str × Str)) (w : LssW) :
+    LssW.ctor cls d = .ok w → w.src = d ∧ w.a = ⟨cls, d⟩ ∧ w.b = none ∧ LssWOk w := by
+  unfold LssW.ctor
+  cases h : Lss.ctor cls d with
+  | error e => simp
+  | ok a =>
+    simp only [Except.ok.injEq]
+    intro hw; subst hw
+    have := c02_lss_ctor cls d a h
+    exact ⟨rfl, this.1, rfl, this.2.2, by simp⟩
+
+/-- SOUNDNESS over the three aliases: whatever is done to the caller's dict, to the first or to the second object —
+    including constructing the second object from the same dict or from the first object — BOTH objects keep every entry
+    within the limits of their own class. -/
+theorem c02_lssw_sound (w : LssW) (op : LssWOp) (hok : LssWOk w) : LssWOk (w.step op).1 := by
+  obtain ⟨ha, hb⟩ := hok
+  cases op with
+  | onA o => exact ⟨(c02_lss_step_entries w.a o ha).2, hb⟩
+  | onB o =>
+    simp only [LssW.step]
+    cases hw : w.b with
+    | none => exact ⟨ha, by simp [hw]⟩
+    | some b =>
+      refine ⟨ha, ?_⟩
+      intro b' hb'
+      simp only [Option.some.injEq] at hb'
+      subst hb'
+      exact (c02_lss_step_entries b o (hb b hw)).2
+  | srcSet k v => exact ⟨ha, hb⟩
+  | srcDel k => exact ⟨ha, hb⟩
+  | srcClear => exact ⟨ha, hb⟩
+  | newB cls f =>
+    simp only [LssW.step]
+    cases hc : Lss.ctor cls (if f = true then w.a.d else w.src) with
+    | error e => exact ⟨ha, hb⟩
+    | ok b =>
+      refine ⟨ha, ?_⟩
+      intro b' hb'
+      simp only [Option.some.injEq] at hb'
+      subst hb'
+      exact (c02_lss_ctor cls _ b hc).2.2
+
+/-- FRAME: an operation touches exactly one of the three — the constructor COPIED what it was given. -/
+theorem c02_lssw_frame (w : LssW) (op : LssWOp) :
+    (∀ o, op = .onA o → (w.step op).1.b = w.b ∧ (w.step op).1.src = w.src) ∧
+    (∀ o, op = .onB o → (w.step op).1.a = w.a ∧ (w.step op).1.src = w.src) ∧
+    (∀ c f, op = .newB c f → (w.step op).1.a = w.a ∧ (w.step op).1.src = w.src) ∧
+    ((∀ o, op ≠ .onA o) → (∀ o, op ≠ .onB o) → (∀ c f, op ≠ .newB c f) → (w.step op).1.a = w.a ∧ (w.step op).1.b = w.b) := by
+  refine ⟨?_, ?_, ?_, ?_⟩
+  · intro o h; subst h; exact ⟨rfl, rfl⟩
+  · intro o h; subst h
+    simp only [LssW.step]
+    cases w.b <;> exact ⟨rfl, rfl⟩
+  · intro c f h; subst h
+    simp only [LssW.step]
+    cases Lss.ctor c (if f = true then w.a.d else w.src) <;> exact ⟨rfl, rfl⟩
+  · intro h1 h2 h3
+    cases op with
+    | onA o => exact absurd rfl (h1 o)
+    | onB o => exact absurd rfl (h2 o)
+    | newB c f => exact absurd rfl (h3 c f)
+    | srcSet k v => exact ⟨rfl, rfl⟩
+    | srcDel k => exact ⟨rfl, rfl⟩
+    | srcClear => exact ⟨rfl, rfl⟩
+
+def LssW.run (w : LssW) : List LssWOp → LssW
+  | [] => w
+  | op :: r => ((w.step op).1).run r
+
+theorem c02_lssw_run (w : LssW) (hok : LssWOk w) : ∀ ops : List LssWOp, LssWOk (w.run ops) := by
+  intro ops
+  induction ops generalizing w with
+  | nil => exact hok
+  | cons op r ih => exact ih _ (c02_lssw_sound w op hok)
+
+/-- the scenario of the shared dict: a name (≤ 64) and a text (≤ 1023) built from one dict; a 65-character text put into the
+    text object is accepted and the name still holds only what it held -/
+example :
+    let w : LssW := ⟨[([101, 110], [97])], ⟨"MultiLanguageNameType", [([101, 110], [97])]⟩, none⟩
+    let w1 := (w.step (.newB "MultiLanguageTextType" false)).1
+    let w2 := (w1.step (.onB (.setItem [100, 101] (List.replicate 65 97))))
+    w2.2 = .ok () ∧ w2.1.a = w.a ∧ (w.step (.onA (.setItem [100, 101] (List.replicate 65 97)))).2 = .error .valueError := by
+  decide
+
 /-! ## 3h. SubmodelElementList: what `_check_constraints` + the id hook let in (AASd-107/108/109/114/120) -/
 
 def SmlListOk (c : SmlCfg) (l : List SmlElem) : Prop :=
@@ -1139,5 +1287,204 @@ example : smlCtorChk ⟨"Property", none, none⟩ = .error (.aascv 109) := by de
 example : smlAddChk ⟨"Property", none, some "Int"⟩ ⟨"Property", some 1, some "Int", false⟩ [⟨"Property", some 0, some "Int", false⟩]
     = .error (.aascv 114) := by decide
 example : SmlListOk ⟨"Capability", none, none⟩ [] := by simp [SmlListOk]
+
+/-! ## 3i. SubmodelElementList as a machine: children modified while they are contained -/
+
+/-- the five list rules on the children that are in the list -/
+def SmlMOk (s : SmlM) : Prop := SmlListOk s.cfg s.items
+
+private theorem smlListOk_of_subset (c : SmlCfg) (l l' : List SmlElem) (hsub : ∀ e ∈ l', e ∈ l) (hok : SmlListOk c l) : SmlListOk c l' := by
+  obtain ⟨o1, o2, o3, o4, o5⟩ := hok
+  exact ⟨fun e he => o1 e (hsub e he), fun e he => o2 e (hsub e he), fun e he => o3 e (hsub e he),
+    fun ht e he => o4 ht e (hsub e he), fun a ha b hb => o5 a (hsub a ha) b (hsub b hb)⟩
+
+private theorem dropTag_items_subset (t : Nat) (l : List (Nat × SmlElem)) : ∀ e ∈ (dropTag t l).map (·.2), e ∈ l.map (·.2) := by
+  intro e he
+  obtain ⟨p, hp, rfl⟩ := List.mem_map.1 he
+  exact List.mem_map.2 ⟨p, (List.mem_filter.1 hp).1, rfl⟩
+
+private theorem smlFill_ok (c : SmlCfg) : ∀ (es : List SmlElem) (acc o : List (Nat × SmlElem)),
+    SmlListOk c (acc.map (·.2)) → smlFill c es acc = .ok o → SmlListOk c (o.map (·.2)) := by
+  intro es
+  induction es with
+  | nil => intro acc o h hf; simp only [smlFill, Except.ok.injEq] at hf; subst hf; exact h
+  | cons e r ih =>
+    intro acc o h hf
+    simp only [smlFill] at hf
+    cases hc : smlAddChk c e (acc.map (·.2)) with
+    | error err => rw [hc] at hf; cases hf
+    | ok u =>
+      cases u
+      rw [hc] at hf
+      refine ih _ o ?_ hf
+      have := c02_sml_add_sound c e _ h hc
+      simpa using this
+
+/-- the constructor: accepted ⇒ the initial children satisfy the five rules (and AASd-109 of the list itself was checked) -/
+theorem c02_smlm_ctor (c : SmlCfg) (es : List SmlElem) (s : SmlM) :
+    SmlM.ctor c es = .ok s → s.cfg = c ∧ s.detached = [] ∧ smlCtorChk c = .ok () ∧ SmlMOk s := by
+  unfold SmlM.ctor
+  intro h
+  rw [andThen_ok] at h
+  obtain ⟨h1, h2⟩ := h
+  cases hf : smlFill c es [] with
+  | error e => rw [hf] at h2; cases h2
+  | ok o =>
+    rw [hf] at h2
+    simp only [Except.ok.injEq] at h2
+    subst h2
+    refine ⟨rfl, rfl, h1, ?_⟩
+    exact smlFill_ok c es [] o (by simp [SmlListOk]) hf
+
+/-- SOUNDNESS for every operation except the plain attribute `value_type`: whatever the operation does — accepted or
+    raised, on a contained or on a detached child — the children that are in the list afterwards satisfy
+    AASd-107/108/109/114/120.  In particular `child.semantic_id = r` on a CONTAINED child re-evaluates 107 and 114. -/
+theorem c02_smlm_sound_partial (s : SmlM) (op : SmlOp) (hok : SmlMOk s) (hvt : ∀ t v, op ≠ .setVt t v) :
+    SmlMOk (s.step op).1 := by
+  unfold SmlMOk at *
+  cases op with
+  | add e =>
+    simp only [SmlM.step]
+    cases hc : smlAddChk s.cfg e s.items with
+    | error err => exact hok
+    | ok u =>
+      cases u
+      have := c02_sml_add_sound s.cfg e s.items hok hc
+      simpa [SmlM.items] using this
+  | readd t =>
+    simp only [SmlM.step]
+    split
+    · exact hok
+    · rename_i e _ _
+      cases hc : smlAddChk s.cfg e s.items with
+      | error err => exact hok
+      | ok u =>
+        cases u
+        have := c02_sml_add_sound s.cfg e s.items hok hc
+        simpa [SmlM.items] using this
+    · exact hok
+  | setSem t r =>
+    simp only [SmlM.step]
+    split
+    · rename_i e _
+      have hrest : SmlListOk s.cfg ((dropTag t s.order).map (·.2)) :=
+        smlListOk_of_subset s.cfg s.items _ (dropTag_items_subset t s.order) hok
+      cases hc : smlAddChk s.cfg { e with semId := r, hasIdShort := false } ((dropTag t s.order).map (·.2)) with
+      | error err => exact hrest
+      | ok u =>
+        cases u
+        have := c02_sml_add_sound s.cfg _ _ hrest hc
+        simpa [SmlM.items] using this
+    · exact hok
+    · exact hok
+  | setVt t v => exact absurd rfl (hvt t v)
+  | setId t u =>
+    simp only [SmlM.step]
+    split <;> exact hok
+  | remove t =>
+    simp only [SmlM.step]
+    split
+    · exact smlListOk_of_subset s.cfg s.items _ (dropTag_items_subset t s.order) hok
+    · exact hok
+    · exact hok
+
+def SmlM.run (s : SmlM) : List SmlOp → SmlM
+  | [] => s
+  | op :: r => ((s.step op).1).run r
+
+/-- every history of adds, removals, re-adds, `semantic_id` and `id_short` assignments on contained or detached children -/
+theorem c02_smlm_run_partial (s : SmlM) (hok : SmlMOk s) :
+    ∀ ops : List SmlOp, (∀ op ∈ ops, ∀ t v, op ≠ .setVt t v) → SmlMOk (s.run ops) := by
+  intro ops
+  induction ops generalizing s with
+  | nil => intro _; exact hok
+  | cons op r ih =>
+    intro h
+    simp only [SmlM.run]
+    exact ih _ (c02_smlm_sound_partial s op hok (h op (by simp))) (fun o ho => h o (by simp [ho]))
+
+/-- COMPLETENESS of the `semantic_id` setter on a contained child: if the child with the new id would break a rule of the
+    list formed by the other children, the assignment raises AASConstraintViolation with the number of a list rule. -/
+theorem c02_smlm_setsem_complete (s : SmlM) (t : Nat) (r : Option Nat) (e : SmlElem) (hok : SmlMOk s)
+    (hin : lookupTag t s.order = some e)
+    (hbad : ¬ SmlListOk s.cfg ((dropTag t s.order).map (·.2) ++ [{ e with semId := r, hasIdShort := false }])) :
+    ∃ n, n ∈ [120, 108, 107, 109, 114] ∧ (s.step (.setSem t r)).2 = .error (.aascv n) := by
+  have hrest : SmlListOk s.cfg ((dropTag t s.order).map (·.2)) :=
+    smlListOk_of_subset s.cfg s.items _ (dropTag_items_subset t s.order) hok
+  obtain ⟨n, hn, hc⟩ := c02_sml_add_complete s.cfg _ _ hrest hbad
+  refine ⟨n, hn, ?_⟩
+  simp only [SmlM.step, hin, hc]
+
+/-  FULL STATEMENT (false — known finding `smlm.setvt:accepted:aasd109`):
+      theorem c02_smlm_sound (s : SmlM) (op : SmlOp) (hok : SmlMOk s) : SmlMOk (s.step op).1
+    `value_type` of Property / Range is a plain attribute: assigning it to a contained child re-validates nothing. -/
+theorem c02_smlm_setvt_breaks_109 :
+    ∃ (s : SmlM) (t : Nat) (v : Option String), SmlMOk s ∧ (s.step (.setVt t v)).2 = .ok () ∧ ¬ SmlMOk (s.step (.setVt t v)).1 := by
+  refine ⟨⟨⟨"Property", none, some "Int"⟩, [(0, ⟨"Property", none, some "Int", false⟩)], []⟩, 0, some "String", ?_, rfl, ?_⟩
+  · exact (c02_smlm_ctor ⟨"Property", none, some "Int"⟩ [⟨"Property", none, some "Int", false⟩] _ (by decide)).2.2.2
+  · intro h
+    have := h.2.2.2.1 (Or.inl rfl) ⟨"Property", none, some "String", false⟩ (by decide)
+    exact absurd this (by decide)
+
+/-- … but on a child that is not in the list `value_type` cannot hurt the list -/
+theorem c02_smlm_setvt_detached (s : SmlM) (t : Nat) (v : Option String) (hok : SmlMOk s) (hout : lookupTag t s.order = none) :
+    SmlMOk (s.step (.setVt t v)).1 := by
+  have hid : mapTag t (setVtOf v) s.order = s.order := by
+    unfold mapTag
+    have : ∀ p ∈ s.order, (p.1 == t) = false := by
+      intro p hp
+      unfold lookupTag at hout
+      simp only [Option.map_eq_none_iff] at hout
+      have := List.find?_eq_none.1 hout p hp
+      simpa using this
+    calc List.map (fun p => if (p.1 == t) = true then (p.1, setVtOf v p.2) else p) s.order
+        = List.map id s.order := List.map_congr_left (fun p hp => by simp [this p hp])
+      _ = s.order := List.map_id _
+  unfold SmlMOk at *
+  simp only [SmlM.step, SmlM.items, hid]
+  exact hok
+
+/-- ATOMICITY of everything except the `semantic_id` setter: a raising call leaves the list as it was; apart from `add`
+    (which lists its new, still detached child) it leaves the whole state as it was. -/
+theorem c02_smlm_atomic_partial (s : SmlM) (op : SmlOp) (hns : ∀ t r, op ≠ .setSem t r) :
+    (s.step op).2 ≠ .ok () → (s.step op).1.order = s.order ∧ ((∀ e, op ≠ .add e) → (s.step op).1 = s) := by
+  cases op with
+  | add e =>
+    simp only [SmlM.step]
+    cases smlAddChk s.cfg e s.items with
+    | error err => intro _; exact ⟨rfl, fun h => absurd rfl (h e)⟩
+    | ok u => cases u; simp
+  | readd t =>
+    simp only [SmlM.step]
+    split
+    · simp
+    · rename_i e _ _
+      cases smlAddChk s.cfg e s.items with
+      | error err => simp
+      | ok u => cases u; simp
+    · simp
+  | setSem t r => exact absurd rfl (hns t r)
+  | setVt t v => simp [SmlM.step]
+  | setId t u => simp only [SmlM.step]; split <;> simp
+  | remove t => simp only [SmlM.step]; split <;> simp
+
+/-  FULL STATEMENT (false — known finding `smlm.setsem:raised:not-atomic`):
+      theorem c02_smlm_atomic (s : SmlM) (op : SmlOp) : (s.step op).2 ≠ .ok () → (s.step op).1.order = s.order
+    A rejected `semantic_id` assignment leaves the child removed from the list, carrying the rejected id. -/
+theorem c02_smlm_setsem_not_atomic :
+    ∃ (s : SmlM) (t : Nat) (r : Option Nat), SmlMOk s ∧ (s.step (.setSem t r)).2 = .error (.aascv 114) ∧
+      (s.step (.setSem t r)).1.order ≠ s.order ∧
+      lookupTag t (s.step (.setSem t r)).1.detached = some ⟨"Property", r, some "Int", false⟩ := by
+  refine ⟨⟨⟨"Property", none, some "Int"⟩, [(0, ⟨"Property", none, some "Int", false⟩), (1, ⟨"Property", some 0, some "Int", false⟩)], []⟩,
+    0, some 1, ?_, by decide, by decide, by decide⟩
+  exact (c02_smlm_ctor ⟨"Property", none, some "Int"⟩ [⟨"Property", none, some "Int", false⟩, ⟨"Property", some 0, some "Int", false⟩] _
+    (by decide)).2.2.2
+
+example : (SmlM.step ⟨⟨"Property", some 0, some "Int"⟩, [(0, ⟨"Property", none, some "Int", false⟩)], []⟩ (.setSem 0 (some 1))).2
+    = .error (.aascv 107) := by decide
+example : ((SmlM.step ⟨⟨"Property", none, some "Int"⟩, [(0, ⟨"Property", none, some "Int", false⟩), (1, ⟨"Property", some 0, some "Int", false⟩)], []⟩
+    (.setSem 0 (some 0))).1.order.map (·.1)) = [1, 0] := by decide
+example : (SmlM.step ⟨⟨"Capability", none, none⟩, [(0, ⟨"Capability", none, none, false⟩)], []⟩ (.setId 0 true)).2 = .error (.aascv 120) := by
+  decide
 
 end Basyx.Constraints
